@@ -16,7 +16,7 @@ u1 == heap[1]
 d0 == NumD(u1)
 
 \* asymmetric integer coefficient matrices / vectors, distinct per (t, r)
-CoefMat(K, d, t) == Q([a \in 1..K |-> [b \in 1..d |-> ((3 * a + 5 * b + 7 * t + a * b) % 7) - 3]], 1)
+CoefMat(K, d, t) == Q([a \in 1..K |-> [b \in 1..d |-> ((3 * a + 5 * b + 2 * t + a * b * t) % 7) - 3]], 1)
 CoefVec(K, t) == Q([a \in 1..K |-> ((2 * a + 3 * t) % 5) - 2], 1)
 
 \* mode codes 1..9 = (matrix mode, vector mode)
